@@ -10,7 +10,7 @@ from .spec import Contract
 
 class CallMixin:
     SPEC_FORMS = {"old", "forall", "exists", "implies", "ite", "fresh", "at_loop", "allocated", "iff",
-                  "typeis", "let", "store", "select", "empty", "setadd", "setdel", "dom", "wrap_int", "cast", "pos", "cut"}
+                  "typeis", "let", "store", "select", "empty", "setadd", "setdel", "dom", "wrap_int", "cast", "pos", "cut", "dtype", "classid"}
 
     def ev_Call(self, e, st):
         f = e.func
@@ -55,6 +55,8 @@ class CallMixin:
         if k == "boundmethod":
             base, name = fv.z
             bk = base.t[0]
+            if bk == "symcls":
+                return self.lib.call_method(base, name, args, kwargs, st, node, fv.origin)
             if bk in ("ref", "exc"):
                 return self.call_member(base, base.t[1] if bk == "ref" else "Exception", name, args, kwargs, st, node)
             return self.lib.call_method(base, name, args, kwargs, st, node, fv.origin)
@@ -90,6 +92,9 @@ class CallMixin:
 
     def call_function(self, key: str, args, kwargs, st, node):
         mn, fn = key.split(":")
+        if fn == "_get_core_defs":
+            self.lib.use("_get_core_defs(): type_id -> class for every MDF_ class of pyrtma.core_defs (read from the source of core_defs.py)")
+            return [(st, Val(("concdict",), dict(self.src.message_classes("pyrtma.core_defs"))))]
         con = self.reg.contracts.get(key) or self.reg.find_contract(fn)
         m = self.src.modules[mn]
         if con is not None:
@@ -254,6 +259,11 @@ class CallMixin:
             if not self.feasible(s):
                 continue
             if exc_cls is None:
+                hook = self.contract.ghost_after.get(con.qualname) if (self.contract and len(s.frames) == 1) else None
+                if hook:
+                    for s_h in self.exec_ghost(hook, s):
+                        results.append((s_h, res if res is not None else self.const_val(None)))
+                    continue
                 results.append((s, res if res is not None else self.const_val(None)))
             else:
                 results.append((s, Exc(exc_cls, f"from {con.qualname}", getattr(node, "lineno", 0))))
@@ -421,6 +431,11 @@ class CallMixin:
             x = self.sv(a[1], st)
             kpart = a[2].value if len(a) > 2 else 0
             return Val(INT, parts[kpart][1](self.coerce(x, L.t[1]).z))
+        if name == "dtype":
+            r = self.sv(a[0], st)
+            return Val(INT, self.dtype_fn(r.z))
+        if name == "classid":
+            return Val(INT, z3.IntVal(self.class_id(a[0].id)))
         if name == "cast":
             r = self.sv(a[0], st)
             return Val(ref(a[1].id), r.z)
